@@ -974,11 +974,14 @@ func (c *Conn) writeRecordLocked(typ recordType, data []byte) (int, error) {
 			outBuf[12] = byte(encLen)
 		}
 
+		// 记录一经加密，其序列号即被消耗：无论底层写入成功与否都先递增，
+		// 否则写入失败后发送的下一条记录（close_notify / 告警）会在同一密钥下
+		// 重用相同的 epoch+seq（GCM 下即相同 nonce）。
+		c.writeSeq++
 		if _, err := c.write(outBuf); err != nil {
 			return n, err
 		}
 		n += m
-		c.writeSeq++
 		data = data[m:]
 	}
 
